@@ -1,22 +1,41 @@
 """C10 conditional inclusion and #include resolution select exactly the right text.
 
-Part A  explicit-state model of the conditional machine (models/c10_model.py); breadth-first closure of the model
-        graph; EVERY well-nested directive sequence of length <= n (nesting <= 3) over the alphabet
-        {#if 0|1|defined X|X|!X, #ifdef X, #ifndef X, #elif c, #else, #endif, #define X 1, #undef X, text line ending
-        in an empty macro} (+ trailing junk token where it is to be ignored) is rendered with a probe line after every
-        directive and replayed through `chibicc -cc1 -E`; surviving probe ids must equal the model's.  gcc -E -P is
-        the second oracle.  Sequences share a process (batch) and every deviating one is re-run alone.
-Part B  #if arithmetic on a grid of intmax_t/uintmax_t expression trees (truth, value, signedness probes).
-Part C  include resolution over generated directory trees (includer's dir, -I d1, -I d2, system, -idirafter d3).
-Part D  re-inclusion shortcuts: file shapes that do / do not qualify as guarded, included 2-3 times.
-Part E  -include / -D / -U option orders against the same directives written in the file.
+Part A  explicit-state model of the conditional machine (models/c10_model.py: state = stack of (ctx, taken, active),
+        X defined?, previous line ended in an empty expansion?).  (1) breadth-first closure of the model graph for
+        nesting <= 3 and a transition cover: every state (shortest trace) x every run of k enabled symbols x a
+        distinguishing suffix; (2) EVERY well-nested directive sequence of length <= n over the alphabet
+        {#if 0|1|defined X|X|!X, #ifdef X, #ifndef X, #elif c, #else, #endif, #define X 1, #undef X} (+ a trailing junk
+        token on #ifdef/#ifndef/#else/#endif/#undef), (3) the same with a text line ending in an empty macro, (4) the
+        same with lines that are valid only where 6.10.1p6 says they are not looked at (#error, #include of a missing
+        file, unknown directive, malformed #define/#line, `#if 1 +` in a skipped group, `#elif 1 / 0` after a taken
+        group).  Every sequence is rendered with a probe line after every directive and replayed from the start
+        through `chibicc -cc1 -E`; the surviving probe ids must equal the model's.  Sequences share a process (batch of
+        400, separated by marker lines); every deviating one is re-run alone (a difference chained/alone is a violation).
+        quick: n<=5 (2), n<=3 (3), n<=4 (4), k=1; thorough adds n<=6 without junk variants, n<=4 (3), n<=5 (4), k<=2.
+Part B  #if arithmetic: expression trees over 42 atoms (int/unsigned/long-typed spellings, limits, character constants,
+        defined, unknown identifiers, macros) x 18 binary / 4 unary operators, depth 2 over a 6 (thorough: 11) atom
+        subset, ?: ; three probes each (truth, value, signedness); model = 6.10.1p4 intmax_t/uintmax_t arithmetic,
+        undefined / implementation-defined results are not judged.
+Part C  include resolution: one header name in every subset of {includer's dir, -I d1, -I d2, system dir, -idirafter
+        d3} (+ the compiler's cwd, which is on no path) x form {"h", <h>, macro-expanded, trailing junk} x every copy
+        chaining on with #include_next <h>/"h" x option orders x `-Idir`/`-I dir` x second inclusion and intervening
+        lookups of another header (cache / stale-index paths).  Units the model calls invalid must be rejected.
+Part D  re-inclusion shortcuts: 1752 file shapes over {leading text, #ifndef G | #if !defined G | #if !defined(G),
+        #define G | none | other, nested conditionals in the body, the guard's own #else/#elif, trailing text /
+        second conditional, #pragma once at top / inside / end} x 24 include scripts (2-3 inclusions, G kept /
+        #undef'd between / pre-defined, same / "./" / <> spelling): output = plain textual inclusion (+ #pragma once).
+Part E  every sequence of <= 3 (thorough 4) options from {-DX, -DX=2, -D X=3, -DY=X, -D'F(x)=x+Y', -UX, -U X,
+        -include a.h|b.h|g.h|c.h(found via -I)} x position of -I, against the same directives written in a file
+        (model, gcc, and chibicc itself on that file).
+Oracle everywhere: the Python model AND `gcc -E -P -nostdinc` must agree before chibicc is judged; any disagreement
+is a HarnessError (exit 2), never a VIOLATION.  Outputs are compared as re-lexed token streams.
 """
 import itertools, os, re, shutil, time
 from vlib import core
 from models import c10_model as M
 
 LEVEL = "model_checking"
-BUDGET = {"quick": 240, "thorough": 1700}
+BUDGET = {"quick": 600, "thorough": 2400}      # global deadlines, not targets: ~6.5 CPU-min / ~30 CPU-min of work
 
 TOK = re.compile(r"[A-Za-z_][A-Za-z0-9_]*|\d+|\S")
 # `# 12 "file"` / `#line 12` lines are not tokens of the program: a chibicc that starts to emit them stays comparable
@@ -92,10 +111,10 @@ def a_classify(seq, exp, st, got):
     if st != 0:
         if isinstance(st, int) and st < 0:
             return "crash"
-        # a directive that was not executed makes the nesting unbalanced
-        return "rejected-after-empty-expansion" if any(
-            seq[i][0] == "te" and seq[i + 1][0] != "te" for i in range(len(seq) - 1)) or (
-            seq and seq[-1][0] == "te" and M.run_sequence(seq)[1] > 0) else "rejected"
+        # descriptive only: which special line kinds the rejected (valid) unit contains
+        has = [n for n, k in (("line-ending-in-empty-expansion", "te"), ("line-valid-only-when-skipped", "dead")) if
+               any(s[0] == k or (k == "dead" and s[0] in ("if", "elif") and s[1] not in M.CONDS) for s in seq)]
+        return "rejected" + ("|unit-has-" + "+".join(has) if has else "")
     if "#" in got:
         return "directive-printed-as-text"
     junk = [t for t in got if t[0] == "J"]
@@ -340,6 +359,24 @@ def shape(e):
     return "cond(%s,%s,%s)" % (shape(e[1]), shape(e[2]), shape(e[3]))
 
 
+def leafset(e):
+    """Signature class of an expression: the set of operand spellings' classes (how ordinary C would type them) -
+    the root causes live in the typing of the operands, not in the operator tree."""
+    out = set()
+
+    def walk(x):
+        if x[0] == "lit":
+            out.add(_CLS.get(x[1], "lit"))
+        elif x[0] == "un" and x[1] == "-" and x[2][0] == "lit" and ("- " + x[2][1]) in _CLS:
+            out.add(_CLS["- " + x[2][1]])
+        else:
+            for y in x[1:]:
+                if isinstance(y, tuple):
+                    walk(y)
+    walk(e)
+    return "operands=" + "+".join(sorted(out))
+
+
 def b_exprs(tier):
     atoms = [a for a, c in ATOMS]
     for a, c in ATOMS:
@@ -427,7 +464,7 @@ def b_task(args):
             res["outcomes"].add(tuple(exp))
             if sc == 0 and tc == exp:
                 continue
-            pre = shape(e) + "|" + b_classify(exp, sc, tc) if sc == 0 else None
+            pre = leafset(e) + "|" + b_classify(exp, sc, tc) if sc == 0 else None
             if pre is not None and confirmed.get(pre, 0) >= 2:
                 res["viol"][pre][0] += 1
                 continue
@@ -435,7 +472,7 @@ def b_task(args):
             if sa == 0 and ta == exp:
                 cls = "chained-differs-from-alone"
             else:
-                cls = shape(e) + "|" + b_classify(exp, sa, ta)
+                cls = leafset(e) + "|" + b_classify(exp, sa, ta)
                 if cls == pre:
                     confirmed[pre] = confirmed.get(pre, 0) + 1
             v = res["viol"].setdefault(cls, [0, None])
